@@ -591,6 +591,14 @@ class FGrow(CExec):
 class FSplitAny(CExec):
     """Dispatch: one analysis id, two functions."""
     family = "F-SPLIT"
+    ASSUMES = [
+        "F-SPLIT: BTree_Malloc / BTree_Realloc return NULL or a block overlapping no live vector (realloc: holding the old "
+        "contents); memcpy / memmove exact; PyObject_CallObject returns NULL or a NEW empty node that is neither self nor a child",
+        "F-SPLIT: activating an object (setstate) may change any field of THAT object and nothing else; Py_TYPE is a function of "
+        "the object; a node is not its own child (A6b); PER_CHANGED / Py_INCREF / PyErr_* / _max_internal_size do not touch the "
+        "fields read",
+        "F-SPLIT: bucket_split: index out of range or > 0 (its one caller passes -1: checked in the AST); BTree_grow: 0 <= index "
+        "< len, len <= size; BTree_split / bucket_split / BTree_grow as callees change the child and the new sibling only"]
 
     @classmethod
     def applies(cls, tu, fn):
